@@ -105,6 +105,11 @@ class CaseGen:
         if shadow_outer:
             # the operator lambda's own parameter, named like a capture, used bare and inside nested lambdas
             parts.append(f"{p}.jets.Select(lambda j: j.h{m}({p}, {p}.z).trks.Select(lambda t: t.v({p})))")
+            # ... and a nested lambda / comprehension re-binding the very same name, after which the outer one is used bare again
+            parts.append(f"{p}.jets.Select(lambda {p}: {p}.pt{m})")
+            parts.append(f"{p}.after_inner{m}({p})")
+        elif r.random() < 0.3:
+            parts.append(f"{p}.jets.Select(lambda {p}: {p}.q{m}).w({p})")
         if r.random() < 0.3:
             # attribute names that python's own ast node objects also have
             an = r.choice(["id", "lineno", "value", "attr", "func", "args", "ctx", "slice", "elts", "col_offset"])
